@@ -111,6 +111,10 @@ def run(tier):
                 kind = "clause-enumeration-with-retract"
         elif 14 in sc and (set(sc) & {6, 7, 8}) and "compile.rs" in d and "panic" in d:
             kind = "retract-with-variable-clause-present"
+        elif sc and sc[0] > 100 and 101 in sc and 106 in sc[sc.index(101):] and "timeout" in d:
+            kind = "open-indexed-call-then-asserta-loops"
+        elif sc and sc[0] > 100 and 107 in sc and (set(sc[:sc.index(107)]) & {101, 102, 103}) and "panic" not in d:
+            kind = "open-call-then-assertz-of-variable-clause-m2"
         elif 5 in sc and 14 in sc and sc.index(5) < sc.index(14) and ("log:" in d or "outcome:" in d) and "panic" not in d and "timeout" not in d:
             kind = "asserta-then-assertz-of-variable-clause"
         elif 2 in sc and 6 in sc and "timeout" in d:
